@@ -38,10 +38,22 @@ def cases(tier, seed):
     for (cls, tab, p_f, p_i), nx, (g, n, T), s in itertools.product(CONFIGS, nxs[:2], [("integer", 12, 0), ("uniform", 20, 2.0)], BIG_SHIFTS):
         out.append({"part": "shift", "cls": cls, "table": tab, "p_f": p_f, "p_i": p_i, "nx": nx,
                     "grid": g, "n": n, "T": T, "shift": s, "seed": seed})
+    # the same pairs with a stepped / build-up schedule given by position: the schedule belongs to the levels, not to the
+    # clock readings, so a shifted run with the same schedule is the same run
+    for (cls, tab, p_f, p_i), nx, (g, n, T), s, sk in itertools.product(CONFIGS, nxs[:2], GRIDS, [-5.0, 123.456, 1e4],
+                                                                        ["stepdown", "downup"]):
+        if cls == "single":
+            out.append({"part": "shift", "cls": cls, "table": tab, "p_f": p_f, "p_i": p_i, "nx": nx,
+                        "grid": g, "n": n, "T": T, "shift": s, "seed": seed, "sched": sk})
     for (cls, tab, p_f, p_i), nx, (g, n, T) in itertools.product(CONFIGS, nxs, GRIDS):
         if cls == "single":
             out.append({"part": "const-schedule", "cls": cls, "table": tab, "p_f": p_f, "p_i": p_i,
                         "nx": nx, "grid": g, "n": n, "T": T, "seed": seed})
+    # ... and on grids that do not start at zero (a constant schedule equals the scalar setting whatever the clock says)
+    for (cls, tab, p_f, p_i), nx, (g, n, T), s in itertools.product(CONFIGS, nxs[:2], GRIDS[:5], [-5.0, 123.456]):
+        if cls == "single":
+            out.append({"part": "const-schedule", "cls": cls, "table": tab, "p_f": p_f, "p_i": p_i,
+                        "nx": nx, "grid": g, "n": n, "T": T, "seed": seed, "shift": s})
     for (cls, tab, p_f, p_i), n in itertools.product(CONFIGS, [2, 8, 20]):
         if cls == "single":
             for L in range(0, 2 * n + 1):
@@ -57,6 +69,9 @@ def cases(tier, seed):
         for pf in (p_f, p_i):
             out.append({"part": "interp", "cls": cls, "table": tab or "S_ideal", "p_f": pf, "p_i": p_i, "nx": 30,
                         "grid": g, "n": n, "T": T, "seed": seed})
+        if cls == "single" and n <= 60:  # a build-up schedule: recovery is not monotone, the final value is not the largest
+            out.append({"part": "interp", "cls": cls, "table": tab, "p_f": p_f, "p_i": p_i, "nx": 30,
+                        "grid": g, "n": n, "T": T, "seed": seed, "sched": "downup"})
     ops = ["rf", "rf_density", "rf_t", "interp", "sim"]
     for (cls, tab, p_f, p_i) in CONFIGS:
         for k in ((1, 2, 3, 4, 5) if tier == "thorough" else (1, 2, 3)):
@@ -81,16 +96,22 @@ def eval_shift(case):
     ts = t + case["shift"]
     a = sim.make_reservoir(cls, case["nx"], case["p_f"], case["p_i"], case["table"])
     b = sim.make_reservoir(cls, case["nx"], case["p_f"], case["p_i"], case["table"])
-    a.simulate(t)
-    b.simulate(ts)
+    sched = None
+    if case.get("sched"):
+        sched = sim.schedule(case["sched"], len(t), case["p_f"], case["p_i"], tables.table_range(case["table"])[0])
+        a.simulate(t, sched.copy())
+        b.simulate(ts, sched.copy())
+    else:
+        a.simulate(t)
+        b.simulate(ts)
     u, us = a.pseudopressure, b.pseudopressure
-    m_f, m_i = sim.frac_values(a, cls, case["p_f"], None, len(t))
-    draw = m_i - m_f[0]
+    m_f, m_i = sim.frac_values(a, cls, case["p_f"], sched, len(t))
+    draw = m_i - float(np.min(m_f))
     dts = np.diff(ts)
     dmin = dts[dts > 0].min()
     delta = 4 * EPS * (abs(case["shift"]) + abs(t).max()) / dmin  # relative rounding of a shifted dt
     # rounding of the linear solve itself: eps * cond(A) * |u| with cond(A) <= 1 + 4 nx^2 dt a_max
-    a_max = 1.0 if cls == "ideal" else float(np.max(a.alpha_scaled(np.linspace(m_f[0], m_i, 201))))
+    a_max = 1.0 if cls == "ideal" else float(np.max(a.alpha_scaled(np.linspace(float(np.min(m_f)), m_i, 201))))
     cond = 1 + 4 * (case["nx"] + 1) ** 2 * float(dts.max()) * a_max
     tol_u = AMPLIFY * len(t) * delta * draw + (1e-12 + 8 * EPS * cond) * abs(m_i)
     viol = []
@@ -120,6 +141,8 @@ def eval_shift(case):
 
 def eval_const(case):
     t = sim.time_grid(case["grid"], case["n"], case["T"], case["seed"])
+    if case.get("shift"):
+        t = t + case["shift"]
     a = sim.make_reservoir("single", case["nx"], case["p_f"], case["p_i"], case["table"])
     b = sim.make_reservoir("single", case["nx"], case["p_f"], case["p_i"], case["table"])
     a.simulate(t)
@@ -183,7 +206,10 @@ def eval_interp(case):
         r = sim.make_reservoir(case["cls"], case["nx"], case["p_f"], case["p_i"], case["table"])
         if dens and (case["cls"] == "ideal" or "density" not in r.fluid.pvt_props):
             continue
-        r.simulate(t.copy())
+        if case.get("sched"):
+            r.simulate(t.copy(), sim.schedule(case["sched"], len(t), case["p_f"], case["p_i"], tables.table_range(case["table"])[0]))
+        else:
+            r.simulate(t.copy())
         rec = np.asarray(r.recovery_factor(density=dens), dtype=float).copy()
         f = r.recovery_factor_interpolator()
         at = np.asarray(f(t), dtype=float)
